@@ -203,7 +203,12 @@ end
 def matchAllRaw (vt : VT) (it : Item) : List (Nat × Binding) :=
   (nodesOf vt).flatMap fun n => (matchItem it n).map fun b => (n.info.id, b)
 
+/-- Remove repeated elements. -/
+def dedup {α : Type} [DecidableEq α] : List α → List α
+  | [] => []
+  | a :: l => if a ∈ dedup l then dedup l else a :: dedup l
+
 /-- … each distinct (root, binding) once. -/
-def matchAll (vt : VT) (it : Item) : List (Nat × Binding) := (matchAllRaw vt it).eraseDups
+def matchAll (vt : VT) (it : Item) : List (Nat × Binding) := dedup (matchAllRaw vt it)
 
 end TsVerif.C05
